@@ -91,6 +91,13 @@ Theorem C01_range_send_timeout_refuted :
 Proof. exact run_refuted_range_timeout. Qed.
 Print Assumptions C01_range_send_timeout_refuted.
 
+(** x/devgas ante: paying the withdrawers of one tx by ranging over a map (instead of the message-order slice) lets the
+    map order decide the account numbers of withdrawers that had no account *)
+Theorem C01_devgas_map_payout_refuted :
+  exists h, run cfg_devgas_map_order [] sched_id clock_fast h <> run cfg_devgas_map_order [] sched_rev clock_fast h.
+Proof. exact run_refuted_devgas_map_order. Qed.
+Print Assumptions C01_devgas_map_payout_refuted.
+
 (** omap: orderedKeys = sort (keys data) is an invariant of BuildFrom / Set / Delete / Union *)
 Theorem C01_omap_invariant :
   forall c π ops, c_omap_sorted c = true -> valid_sched π ->
